@@ -264,7 +264,7 @@ def compare(case, real, mout):
 
 def oracle(case, real):
     """the property, from the reader's results only"""
-    seen = {}; coll = {}; bad = []
+    seen = {}; coll = {}; bad = []; cond = {}
     for i, r in enumerate(real):
         op = r['op']; k = op['k']; res = r['res']
         if 'err' in res:
@@ -274,14 +274,21 @@ def oracle(case, real):
                 if (k == 'read' and key[1:] in seen) or (k in ('iter', 'len', 'isEmpty') and op['p'] in coll):
                     bad.append({'step': i, 'op': op, 'kind': 'other-error-on-repeated-read', 'got': res})
             continue
+        if k == 'fetch' and op.get('cond') is not None and not op.get('sql'):
+            # the query result is an observation too: every returned instance satisfied `attr >= lo` (used attribute)
+            for c in res.get('objs', []): cond.setdefault((c, op['cond'][0]), (i, op['cond'][1]))
         if k == 'write':
             if op['a'] not in VOLATILE: seen[(op['c'], op['a'])] = (i, op['v'])     # the session's own change
+            cond.pop((op['c'], op['a']), None)
         elif k == 'read' and op['a'] not in VOLATILE:
             key = (op['c'], op['a'])
             if key in seen and seen[key][1] != res['val']:
                 bad.append({'step': i, 'op': op, 'kind': 'attribute-changed', 'first_step': seen[key][0], 'first': seen[key][1], 'got': res['val'],
                             'attr_kind': ATTRS[op['a']][1]})
             seen.setdefault(key, (i, res['val']))
+            if key in cond and res['val'] < cond[key][1]:
+                bad.append({'step': i, 'op': op, 'kind': 'condition-observed-attribute-changed', 'first_step': cond[key][0],
+                            'first': 'query returned the instance for %s >= %d' % (NAMES[op['a']], cond[key][1]), 'got': res['val'], 'attr_kind': ATTRS[op['a']][1]})
         elif k == 'contains' and 0 not in VOLATILE:
             key = (op['c'], 0)
             if key in seen and (seen[key][1] == op['p']) != res['bool']:
